@@ -9,6 +9,7 @@ mod c13;
 mod c14;
 mod c15;
 mod c16;
+mod c17;
 mod c18;
 mod coq;
 mod extract;
@@ -53,6 +54,8 @@ fn main() {
         "c05" => c05::run(&out, &tier, seed, shards, replay),
         "c06" => c06::run(&out, &tier, seed, shards, replay),
         "c12" => c12::run(&out, &tier, seed, shards, replay),
+        "c17" => c17::run(&out, &tier, seed, shards, replay),
+        "worker" => c17::worker(&args[2]),
         "c11" => c11::run(&out, &tier, seed, shards, replay),
         other => {
             eprintln!("unknown command {}", other);
